@@ -67,7 +67,12 @@ def dsl_eentry(e, rnd=None):
     raise ValueError(e)
 
 
-def dsl_defn(d, rnd=None):
+def dsl_defn(d, rnd=None, vary=False):
+    """DSL text of a definition.  With vary=True the equivalent surface forms the parser accepts are chosen
+    pseudo-randomly but reproducibly from the definition itself (single identifier vs bracketed list,
+    `events {` vs `events: {`, trailing commas, commas between events)."""
+    if vary and rnd is None:
+        rnd = random.Random(repr(d))
     out = []
     for en in d:
         k = en[0]
@@ -76,19 +81,28 @@ def dsl_defn(d, rnd=None):
         elif k in ('async', 'dynamic'):
             out.append('%s: %s' % (k, 'true' if en[1] else 'false'))
         elif k == 'states':
-            out.append('states: [' + ', '.join(dsl_sitem(x, True, rnd) for x in en[1]) + ']')
+            tc = ',' if (rnd is not None and rnd.random() < 0.3 and en[1]) else ''
+            out.append('states: [' + ', '.join(dsl_sitem(x, True, rnd) for x in en[1]) + tc + ']')
         elif k == 'events':
             evs = []
             for (n, es) in en[1]:
-                evs.append(n + ' { ' + ', '.join(dsl_eentry(e, rnd) for e in es) + ' }')
-            out.append('events { ' + ' '.join(evs) + ' }')
+                tc = ',' if (rnd is not None and rnd.random() < 0.3 and es) else ''
+                evs.append(n + ' { ' + ', '.join(dsl_eentry(e, rnd) for e in es) + tc + ' }')
+            sep = ', ' if (rnd is not None and rnd.random() < 0.3) else ' '
+            kw = 'events:' if (rnd is not None and rnd.random() < 0.4) else 'events'
+            out.append(kw + ' { ' + sep.join(evs) + ' }')
         elif k == 'legacy':
-            out.append('%s: legacy_value' % en[1])
+            if rnd is not None and rnd.random() < 0.5:
+                out.append('%s: { }' % en[1])
+            else:
+                out.append('%s: legacy_value' % en[1])
         elif k == 'unknown':
             out.append('%s: Zz' % en[1])
         else:
             raise ValueError(en)
-    return ',\n    '.join(out)
+    tail = ',' if (rnd is not None and rnd.random() < 0.3) else ''
+    return ',\n    '.join(out) + tail
+
 
 # ---------------------------------------------------------------- Coq terms
 
@@ -458,5 +472,7 @@ def gen_wellformed(rnd, shape, idx=0):
     if shape.dynamic:
         d.append(('dynamic', True))
     d.append(('states', forest))
+    if rnd.random() < 0.15:
+        d.insert(rnd.randint(0, len(d)), ('legacy', rnd.choice(['state', 'action', 'callbacks'])))
     d.append(('events', events))
     return d
